@@ -1,9 +1,188 @@
 package main
 
-import "fmt"
+import (
+	"encoding/json"
+	"fmt"
+	"os"
+	"path/filepath"
+	"strings"
+	"time"
 
-func replayFile(path string) int   { fmt.Println("replay not implemented yet:", path); return 2 }
-func selftest(args []string) int   { fmt.Println("selftest not implemented yet"); return 0 }
+	"github.com/mikefarah/yq/v4/pkg/yqlib"
+)
+
+// replayFile re-executes the concrete input of a replay file against the code as it is now and prints what happens.
+// exit 1: the recorded observation reproduces; exit 0: the code now behaves differently; exit 2: cannot replay.
+func replayFile(path string) int {
+	raw, err := os.ReadFile(path)
+	if err != nil {
+		fmt.Println("replay:", err)
+		return 2
+	}
+	var m M
+	if err := json.Unmarshal(raw, &m); err != nil {
+		fmt.Println("replay: not a replay file:", err)
+		return 2
+	}
+	fmt.Printf("property=%v fingerprint=%v\nrecorded: %v\n", m["property"], m["fingerprint"], m["what"])
+	conc, _ := m["concrete"].(M)
+	if conc == nil {
+		fmt.Println("replay: no concrete input recorded; re-run ./check", m["property"], "quick")
+		return 2
+	}
+	recorded, _ := m["observed"].(string)
+	if expr, ok := conc["expr"].(string); ok {
+		if doc, ok := conc["input_json"].(string); ok {
+			yqlib.InitExpressionParser()
+			tog, _ := conc["together"].(bool)
+			o := evalWithTimeout(expr, doc, tog)
+			now := strings.TrimSpace(o.St + " " + avListJSON(o.Res))
+			if o.St != "ok" {
+				now = strings.TrimSpace(o.St + " " + o.ErrText)
+			}
+			fmt.Printf("now: yqlib evaluates %s on %s -> %s", expr, doc, now)
+			if o.After != nil {
+				fmt.Printf("  (document afterwards %s)", o.After.JSON())
+			}
+			fmt.Println()
+			if exp, ok := m["expected"].(string); ok {
+				fmt.Println("specification:", exp)
+			}
+			if recorded != "" && strings.HasPrefix(now, strings.TrimSpace(recorded)) {
+				fmt.Println("REPRODUCED")
+				return 1
+			}
+			return 0
+		}
+	}
+	if argvI, ok := conc["argv"].([]interface{}); ok {
+		var argv []string
+		for _, a := range argvI {
+			argv = append(argv, fmt.Sprint(a))
+		}
+		if len(argv) > 0 && argv[0] == "yq" {
+			argv = argv[1:]
+		}
+		stdin, _ := conc["stdin"].(string)
+		if y, ok := conc["input_yaml"].(string); ok && stdin == "" {
+			stdin = y
+		}
+		dir, _ := os.MkdirTemp(filepath.Join(verifHome, "out"), "replay-")
+		defer os.RemoveAll(dir)
+		for i, a := range argv { // checks that ran on a file d.yml
+			if a == "d.yml" {
+				os.WriteFile(filepath.Join(dir, "d.yml"), []byte(stdin), 0o644)
+				argv[i] = "d.yml"
+			}
+		}
+		p := runProc(dir, []byte(stdin), argv...)
+		fmt.Printf("now: yq %s  (stdin %q)\n  exit=%d hang=%v\n  stdout=%q\n  stderr=%q\n", strings.Join(argv, " "), stdin, p.Code, p.Hang, p.Stdout, firstLine(p.Stderr))
+		if recorded != "" && (recorded == p.Stdout || strings.TrimSpace(recorded) == strings.TrimSpace(p.Stdout)) {
+			fmt.Println("REPRODUCED")
+			return 1
+		}
+		if recorded == "" {
+			fmt.Println("no recorded observation to compare with: judge by the output above, or re-run ./check", m["property"], "quick")
+			return 2
+		}
+		return 0
+	}
+	fmt.Println("replay: this kind of case (", m["machine"], ") is re-run by ./check", m["property"], "quick")
+	return 2
+}
+
+// selftest demonstrates that the trace specifications are bound to what they judge: a correct record is accepted, the
+// same record with one corrupted field is rejected.
+func selftest(args []string) int {
+	rc := newRun("SELFTEST", "quick")
+	fail := 0
+	expect := func(name string, bad map[int]string, idx int, wantBad bool) {
+		_, isBad := bad[idx]
+		status := "ok"
+		if isBad != wantBad {
+			status = "UNEXPECTED"
+			fail++
+		}
+		fmt.Printf("selftest %-58s line %d rejected=%v expected=%v  %s %s\n", name, idx, isBad, wantBad, status, bad[idx])
+	}
+	// ---- Trace_Json: {"a": 9007199254740993, "s": "x\"y"}
+	want := []interface{}{M{"k": "map", "m": []interface{}{[]interface{}{cps("a"), M{"k": "ytext", "t": cps("9007199254740993")}}, []interface{}{cps("s"), M{"k": "str", "s": cps(`x"y`)}}}}}
+	lines := []string{`{"a":9007199254740993,"s":"x\"y"}`, `{"a":9007199254740992,"s":"x\"y"}`, `{"a":9007199254740993,"s":"x"y"}`, `{"s":"x\"y","a":9007199254740993}`}
+	var nd strings.Builder
+	for _, l := range lines {
+		b, _ := json.Marshal(M{"err": false, "out": cps(l + "\n"), "wants": want})
+		nd.Write(b)
+		nd.WriteString("\n")
+	}
+	bad := map[int]string{}
+	_, err := RunTLC(rc, TLCOpts{Name: "selftest-json", Module: "Trace_Json", Extra: map[string]string{"json_pairs.ndjson": nd.String()},
+		Cfg: "CONSTANTS\n Chunk = 8\nINIT Init\nNEXT Next\nINVARIANTS Judge\nCHECK_DEADLOCK FALSE\n", Timeout: 5 * time.Minute,
+		OnLine: func(line string) {
+			var i, f int
+			var why string
+			if n, _ := fmt.Sscanf(line, "<<\"BAD\", %d, %q, %d>>", &i, &why, &f); n >= 2 {
+				bad[i] = why
+			}
+		}})
+	if err != nil {
+		fmt.Println("selftest: TLC failed:", err)
+		return 2
+	}
+	expect("Trace_Json accepts the exact value", bad, 1, false)
+	expect("Trace_Json rejects an integer that lost its last digit", bad, 2, true)
+	expect("Trace_Json rejects ill-formed JSON", bad, 3, true)
+	expect("Trace_Json rejects reordered keys", bad, 4, true)
+	// ---- Trace_ShQuote
+	var nd2 strings.Builder
+	for _, out := range []string{`'a b'`, `a b`, `'a b`} {
+		b, _ := json.Marshal(M{"kind": "sh", "s": cps("a b"), "out": cps(out)})
+		nd2.Write(b)
+		nd2.WriteString("\n")
+	}
+	bad2 := map[int]string{}
+	_, err = RunTLC(rc, TLCOpts{Name: "selftest-sh", Module: "Trace_ShQuote", Extra: map[string]string{"shquote_pairs.ndjson": nd2.String()},
+		Cfg: "CONSTANTS\n Chunk = 500\nINIT Init\nNEXT Next\nINVARIANTS Judge\nCHECK_DEADLOCK FALSE\n", Timeout: 5 * time.Minute,
+		OnLine: func(line string) {
+			var i int
+			var why string
+			if n, _ := fmt.Sscanf(line, "<<\"BAD\", %d, %q>>", &i, &why); n == 2 {
+				bad2[i] = why
+			}
+		}})
+	if err != nil {
+		fmt.Println("selftest: TLC failed:", err)
+		return 2
+	}
+	expect("Trace_ShQuote accepts 'a b'", bad2, 1, false)
+	expect("Trace_ShQuote rejects the unquoted word a b", bad2, 2, true)
+	expect("Trace_ShQuote rejects an unterminated quote", bad2, 3, true)
+	// ---- the attribute table of C05: dropping one comment / changing one style is seen
+	in, _ := extractTable("# lead\na: 'x' # lc\nb: [1, 2]\n")
+	out1, _ := extractTable("# lead\na: 'x' # lc\nb: [1, 2]\n")
+	out2, _ := extractTable("# lead\na: x # lc\nb: [1, 2]\n")
+	out3, _ := extractTable("a: 'x' # lc\nb: [1, 2]\n")
+	f1, _ := compareRows(in.Rows, out1.Rows)
+	f2, _ := compareRows(in.Rows, out2.Rows)
+	c3 := strings.Join(in.Comments, "|") != strings.Join(out3.Comments, "|")
+	report := func(name string, got, want bool) {
+		status := "ok"
+		if got != want {
+			status = "UNEXPECTED"
+			fail++
+		}
+		fmt.Printf("selftest %-58s rejected=%v expected=%v  %s\n", name, got, want, status)
+	}
+	report("attribute table accepts the identical stream", f1 != "", false)
+	report("attribute table rejects a dropped quoting style ("+f2+")", f2 != "", true)
+	report("comment list rejects a dropped leading comment", c3, true)
+	if fail > 0 {
+		fmt.Println("selftest: FAILED")
+		return 1
+	}
+	fmt.Println("selftest: all bindings behave as expected")
+	return 0
+}
+
 func workerMain(args []string) int {
 	if len(args) > 0 && args[0] == "c18" {
 		return c18Worker(args[1:])
